@@ -85,6 +85,8 @@ EDITS = {
  "E46-isZero-or-form-and-sub-borrow": [("internal_clipper.go", "	return x.hi == 0 && x.lo == 0", "	if x.lo != 0 {\n		return false\n	}\n	return x.hi == 0"),
    ("internal_clipper.go", "	lo, borrow := bits.Sub64(x.lo, y.lo, 0)\n	hi, _ := bits.Sub64(uint64(x.hi), uint64(y.hi), borrow)\n	return int128{hi: int64(hi), lo: lo}", "	lo, borrow := bits.Sub64(x.lo, y.lo, 0)\n	hi := uint64(x.hi) - uint64(y.hi) - borrow\n	return int128{hi: int64(hi), lo: lo}")],
  "E47-productsAreEqual-via-bits": [("internal_clipper.go", "	mulAB := multiplyUInt64(absA, absB)\n	mulCD := multiplyUInt64(absC, absD)\n", "	var mulAB, mulCD UInt128Struct\n	mulAB.Hi64, mulAB.Lo64 = bits.Mul64(absA, absB)\n	mulCD.Hi64, mulCD.Lo64 = bits.Mul64(absC, absD)\n")],
+ "E48-hasOpenPaths-sticky-or": [("clipper_base.go", "	if isOpen {\n		c.hasOpenPaths = true\n	}\n\n	c.isSortedMinimaList = false", "	c.hasOpenPaths = c.hasOpenPaths || isOpen\n\n	c.isSortedMinimaList = false")],
+ "E49-tidyEdgePair-old-owner-local": [("rect_clip.go", "			r.results[p2.ownerIdx] = nil\n			setNewOwner(p2, p1.ownerIdx)", "			oldOwner := p2.ownerIdx\n			setNewOwner(p2, p1.ownerIdx)\n			r.results[oldOwner] = nil")],
  "E18-comment-and-blank-lines": [("rect_clip.go", "func (r *RectClip64) getNextLocation(path Path64, loc *Location, i *int, highI int) {\n	switch *loc {", "// getNextLocation advances i to the next vertex that leaves the current location.\nfunc (r *RectClip64) getNextLocation(path Path64, loc *Location, i *int, highI int) {\n\n	switch *loc {")],
 }
 def main():
